@@ -50,6 +50,8 @@ def main():
                 ok = r.returncode == 0
             elif exp == "undecided":
                 ok = r.returncode == 2
+            elif exp == "ok-or-undecided":
+                ok = r.returncode in (0, 2)   # a benign refactor must never raise an alarm
             else:
                 ok = r.returncode == 1 and all(e in failed for e in exp)
             print("%s %-40s unit=%-14s rc=%d failed=%s expect=%s" % (
